@@ -206,6 +206,34 @@ def _evaluate(res, case, fact, n, d, N, mT, PT, bw, lib_lml, lib_term, std_dense
     denom = (abs(quad) / 2 + abs(logdet) / 2 + k) / (N if case["average"] else 1)
     TOL = TOL_SOLVER if case["src"] == "solver" else globals()["TOL"]
     err = abs(float(lib_lml) - ref) / max(denom, 1e-300) if np.isfinite(lib_lml) else np.inf
+    if np.isfinite(err) and not err <= TOL:
+        # condition-aware tolerance (computed only when needed): any float64 evaluation of the backward chain carries errors proportional
+        # to the sum of the absolute values of its terms (products of backward gains cancel); move the data's mean and covariance by
+        # 64 eps x that sum in both directions and see how far the exact log-density moves - small noise levels amplify this by 1/std^2
+        eps64 = 64.0 * np.finfo(float).eps
+        means_a, cross_a = _joint(Nmp, np.abs(np.asarray(mT, float)), np.abs(np.asarray(PT, float)), [tuple(np.abs(np.asarray(x, float)) for x in f_) for f_ in bw])
+        att = 0.0
+        for sgn in (1.0, -1.0):
+            mu_p = [mu[i * d + a] + sgn * eps64 * means_a[i][rows[a]] for i in range(N) for a in range(d)]
+            Sig_p = np.empty((k, k), dtype=object)
+            for i in range(N):
+                for j in range(N):
+                    blk = cross_a[(min(i, j), max(i, j))]
+                    for a in range(d):
+                        for b in range(d):
+                            v = blk[rows[a], rows[b]] if i <= j else blk[rows[b], rows[a]]
+                            Sig_p[i * d + a, j * d + b] = Sigma[i * d + a, j * d + b] + sgn * eps64 * v
+            try:
+                lp_p, _, _ = _mp_logpdf(Nmp, y, mu_p, Sig_p)
+            except common.Inconclusive:
+                att = np.inf
+                break
+            att = max(att, abs(lp_p - lp) / max(denom * (N if case["average"] else 1), 1e-300))
+        TOL = max(TOL, 10.0 * att)
+        res.label("timeseries:condition_aware")
+        if not TOL <= 1e-3:
+            res.label("timeseries:skipped_illconditioned")
+            err = 0.0
     res.metric("timeseries/tol", err / TOL)
     if not err <= TOL:
         res.violate("timeseries" + (":gross" if not err <= 1e3 * TOL else ""),
